@@ -31,7 +31,8 @@ CONSTANTS Conn,      \* sequence of connection names, accepted in this order, e.
           PreAccept, \* TRUE: all connections are accepted in the initial state
           Fixes,     \* which patches the modelled tree has:
                      \*   "oneIdentity"  patches/C07-1: a connection authenticated as X refuses handshakes for another identity
-                     \*   "atomicEvict"  (not applied, see report) UpdateAuth evicts another holder of the id under its lock
+                     \*   "atomicEvict"  patches/C07-2: UpdateAuth evicts another registered holder of the id under its own lock
+                     \* {} is tunnox-core before both (its deviations are the named entries of `dev`)
           Split,     \* TRUE: handshake = handler / evict / update-auth as separately scheduled steps
           MaxLevel,  \* exploration depth bound
           Emit       \* behaviour printing mode: "all" | "last" | "no"
@@ -169,6 +170,12 @@ StepDev(s, t, c, m, out) ==
      (IF out = "chal" /\ t.idx # s.idx THEN {"p1InstallsAuthenticatedConn"} ELSE {})
   \cup (IF \E X \in ClientS : t.idx[X] = c /\ AuthOf(t, c) # X THEN {"staleIndexAfterReAuth"} ELSE {})
 
+\* ghost, by the property's own definition (not by the handler's verdict): what a message proves on
+\* its connection - the identity a successful first connect issued, or the claimed identity when
+\* the response is the correct keyed answer to the latest challenge issued on the connection
+Proves(m, r) == IF m.k = "FC" THEN (IF r.out = "ok" THEN {r.id} ELSE {})
+                ELSE IF m.k = "P2" /\ m.resp = "ValidLatest" THEN {m.id} ELSE {}
+
 \* ghost: which connections hold their present authentication through a control-type handshake
 Ctl(out, c, ty, t) == (IF out = "ok" THEN (IF ty = "control" THEN ctl \cup {c} ELSE ctl \ {c}) ELSE ctl) \cap t.reg
 
@@ -191,7 +198,7 @@ Msg(c, m) ==
   /\ LET r == MsgSeq(st, c, m)
          t == ReapAll(r.s)
      IN /\ st' = t
-        /\ proved' = IF r.out = "ok" THEN [proved EXCEPT ![c] = @ \cup {r.id}] ELSE proved
+        /\ proved' = [proved EXCEPT ![c] = @ \cup Proves(m, r)]
         /\ ctl' = Ctl(r.out, c, m.type, t)
         /\ used' = IF r.out = "ok" /\ m.k = "P2" THEN used \cup {<<c, st.pend[c]>>} ELSE used
         /\ gv' = gv \cup StepViol(st, t, c, m, r.out)
@@ -210,7 +217,7 @@ Login(c, X, ty) ==
   /\ LET r == LoginSeq(st, c, X, ty)
          t == ReapAll(r.s)
      IN /\ st' = t
-        /\ proved' = IF r.out = "ok" THEN [proved EXCEPT ![c] = @ \cup {X}] ELSE proved
+        /\ proved' = [proved EXCEPT ![c] = @ \cup (IF r.out = "fail" /\ st.pend[c] = r.s.pend[c] /\ st.nn[c] = r.s.nn[c] THEN {} ELSE {X})]
         /\ ctl' = Ctl(r.out, c, ty, t)
         /\ dev' = dev \cup StepDev(st, t, c, [type |-> ty], r.out)
         /\ Record([op |-> "Login", c |-> c, id |-> X, type |-> ty, out |-> r.out], t)
@@ -221,7 +228,7 @@ FirstLogin(c, ty) ==
   /\ LET r == MsgSeq(st, c, [k |-> "FC", id |-> None, resp |-> None, type |-> ty])
          t == ReapAll(r.s)
      IN /\ st' = t
-        /\ proved' = IF r.out = "ok" THEN [proved EXCEPT ![c] = @ \cup {r.id}] ELSE proved
+        /\ proved' = [proved EXCEPT ![c] = @ \cup Proves([k |-> "FC"], r)]
         /\ ctl' = Ctl(r.out, c, ty, t)
         /\ dev' = dev \cup StepDev(st, t, c, [type |-> ty], r.out)
         /\ Record([op |-> "FirstLogin", c |-> c, type |-> ty, out |-> r.out], t)
@@ -236,7 +243,8 @@ SHandler(c, m) ==
                    IN IF a.out = "chal" THEN Handler(a.s, c, [m EXCEPT !.k = "P2", !.resp = "ValidLatest"]) ELSE a
      IN /\ st' = r.s
         /\ pc' = [pc EXCEPT ![c] = IF Enters(r.s, c, m, r.out) THEN "evict" ELSE "idle"]
-        /\ proved' = IF r.out = "ok" THEN [proved EXCEPT ![c] = @ \cup {r.id}] ELSE proved
+        /\ proved' = [proved EXCEPT ![c] = @ \cup (IF m.k = "FC" THEN Proves(m, r)
+                                                   ELSE IF r.s.nn[c] > st.nn[c] THEN {m.id} ELSE {})]
         /\ ctl' = Ctl(r.out, c, m.type, r.s)
   /\ UNCHANGED <<used, gv, dev, hist>>
 SEvict(c) == /\ Split /\ pc[c] = "evict"
